@@ -6,7 +6,7 @@ from . import stackcommon as sc
 EMITS = set("S V Q G A P R X E B ST CB TXT".split())
 
 ADV_SETUP = ["wrongcode", "wrongproof", "noproof", "a0", "aN", "a2N", "aempty", "m5first", "start", "m3wrong", "m5zerokey",
-             "m5randkey", "badstep", "badmethod", "garbage"]
+             "m5randkey", "badstep", "badmethod", "garbage", "aNforged", "a0forged", "aemptyforged", "wrongcodezero", "m5zeroempty", "m5emptyhkdf"]
 ADV_VERIFY = ["badsig", "unknown", "reordered", "stale", "zerokey", "randkey", "flip", "inner-garbage", "short0", "short7",
               "short15", "short16", "reflect", "keylen31", "keylen33", "keylen0", "finishfirst", "startonly", "garbage"]
 XEPS = [("accessories", "GET"), ("characteristics", "GET"), ("characteristics-put", "PUT"), ("pairings", "POST"),
@@ -94,7 +94,8 @@ def oracle_c01(c, obs):
 def gen_c02(rng, tier):
     cases = []
     msgs = ["start", "m3", "m3wrong", "m5", "m5flip", "m5short", "m5empty", "m5zerokey", "m5randkey", "m5wrongsigner", "m5inner",
-            "badstep", "badmethod", "garbage", "a0", "aN", "a2N", "aempty", "wrongcode", "wrongproof", "noproof", "m5first", "ok"]
+            "badstep", "badmethod", "garbage", "a0", "aN", "a2N", "aempty", "wrongcode", "wrongproof", "noproof", "m5first",
+            "aNforged", "a0forged", "aemptyforged", "wrongcodezero", "m5zeroempty", "m5emptyhkdf", "ok"]
     n = 60 if tier == "quick" else 1200
     for i in range(n):
         conns = ["a", "b"][:rng.randrange(1, 3)]
@@ -137,6 +138,8 @@ def spec_setup(ops):
         s = st.get(c, 0)
         seqs = {"ok": ["start", "m3", "m5"], "wrongcode": ["start", "bad3"], "wrongproof": ["start", "bad3", "bad5"], "noproof": ["start", "bad3", "bad5"],
                 "a0": ["start", "bad3", "bad5"], "aN": ["start", "bad3", "bad5"], "a2N": ["start", "bad3", "bad5"], "aempty": ["start", "bad3", "bad5"],
+                "aNforged": ["start", "bad3", "bad5"], "a0forged": ["start", "bad3", "bad5"], "aemptyforged": ["start", "bad3", "bad5"],
+                "wrongcodezero": ["start", "bad3", "bad5"], "m5zeroempty": ["bad5"], "m5emptyhkdf": ["bad5"],
                 "m5first": ["bad5"], "start": ["start"], "m3": ["m3"], "m3wrong": ["bad3"], "m5": ["m5"], "m5flip": ["bad5"], "m5short": ["bad5"],
                 "m5empty": ["bad5"], "m5zerokey": ["bad5"], "m5randkey": ["bad5"], "m5wrongsigner": ["bad5"], "m5inner": ["inner5"],
                 "badstep": [], "badmethod": [], "garbage": []}[v]
@@ -206,6 +209,13 @@ def gen_c03(rng, tier):
             else:
                 ops += ["G:%s:2.9" % c, "Q:" + c]
         mk(cases, "verify", ops)
+    for _ in range(10 if tier == "quick" else 150):
+        # a controller entity added WITHOUT a public key must never verify anybody; abandoned starts must not wedge a connection
+        ops = ["N:h", "S:h:c0:ok", "V:h:c0:ok", "R:h:nokey:addnokey", "N:v"]
+        for _ in range(rng.randrange(1, 4)):
+            ops.append("V:v:%s:%s" % (rng.choice(["nokey", "c0"]), rng.choice(["badsig", "startonly", "startonly", "reordered", "keylen31"])))
+        ops += ["Q:v", "N:w"] + ["V:w:c0:startonly"] * rng.randrange(1, 4) + ["V:w:c0:ok", "V:w:c0:ok", "G:w:2.9"]
+        mk(cases, "nokey", ops)
     return cases
 
 
@@ -229,6 +239,8 @@ def oracle_c03(c, obs):
             return "unverified connection %s was served: %s" % (p[1], tok[:80])
         if p[0] == "G" and p[1] in genuine and not tok.startswith("G=200"):
             return "verified connection %s is not served: %s" % (p[1], tok[:80])
+    if c["kind"] == "nokey" and "w" not in genuine:
+        return "after abandoned start requests the same connection can no longer complete a correct pair-verify: %s" % [t for o, t in pairs if o.startswith("V:w:")]
     return None
 
 
@@ -603,6 +615,7 @@ def gen_c13(rng, tier):
         # afterwards: the same connection after at most one rejected start, and a new connection
         if state != "verified":
             ops += ["S:x:n1:ok", "S:x:n1:ok", "ST"]
+            ops += ["V:x:c0:ok", "V:x:c0:ok", "G:x:2.9"]
         ops += ["N:y", "S:y:n2:ok", "N:z", "V:z:n2:ok", "G:z:2.9", "ST"]
         mk(cases, "robust", ops, {"state": state})
     return cases
@@ -633,4 +646,7 @@ def oracle_c13(c, obs):
         tries = [t for o, t in pairs if o == "S:x:n1:ok"]
         if not xdead and "S=st2/st4/st6[M2okM6ok]" not in tries:
             return "after at most one rejected start the same connection still cannot pair: %s" % tries
+        vt = [t for o, t in pairs if o == "V:x:c0:ok"]
+        if not xdead and not any(t.startswith("V=st2/st4[") for t in vt):
+            return "after at most one rejected start the same connection still cannot pair-verify: %s" % vt
     return None
